@@ -132,6 +132,19 @@ pub fn vx_date_or(d: Option<VxDate>, ref_date: &VxDate) -> (r: VxDate) { unimple
 //@|    ensures true, // O:asc.threadtime.no_panic
 //@ end
 
+// Asc2DltMsgIterator::timestamp_dms_from: the message timestamp (0.1 ms) from the line's relative time stamp and the offset to the
+// reference time (R12: the two fields of the iterator it reads)
+pub assume_specification [i64::saturating_sub] (a: i64, b: i64) -> (r: i64)
+    ensures r as int == (if a - b > i64::MAX { i64::MAX as int } else if a - b < i64::MIN { i64::MIN as int } else { a - b });
+pub struct VxAscTimes { pub timestamp_offset_dms: u32, pub first_neg_timestamp_us: i64 }
+//@ extract src/utils/asc2dltmsgiterator.rs Asc2DltMsgIterator::timestamp_dms_from
+//@   sub R12 `fn timestamp_dms_from(&self, timestamp_us: i64) -> u32` => `fn timestamp_dms_from(vx_self: &VxAscTimes, timestamp_us: i64) -> u32`
+//@   sub R12 `self` => `vx_self` *
+//@   spec
+//@|    requires timestamp_us > i64::MIN, // the result of parse_signed_time_str (O:asc.time.range, unit logcattime)
+//@|    ensures true, // O:asc.timestamp.no_overflow (whatever time stamp the line carries and whatever the offset to the reference time is)
+//@ end
+
 // Asc2DltMsgIterator::next, a CAN line: from the position of the data-length capture to the decoded data bytes
 //@ extract src/utils/asc2dltmsgiterator.rs region `let loc_d_start = loc_d.1 + 1;` .. `let data = if *data_len > 0` in <Iterator for Asc2DltMsgIterator>::next
 //@   sig pub fn asc_can_data(line: &VxLine, loc_d: (usize, usize), data_len: &u16) -> (r: Option<Vec<u8>>)
